@@ -455,6 +455,9 @@ def task_small(args):
 
 
 def _dispatch(t):
+    if t[0] == 'threads':
+        from .. import concurrent
+        return concurrent.task3(t[1])
     return {'rt': task_roundtrip, 'ref': task_ref, 'small': task_small, 'session': task_session, 'optlen': task_optlen}[t[0]](t[1])
 
 
@@ -478,6 +481,10 @@ def run(tier, seed):
         tasks.append(('small', ('notif', lo, lo + 16)))
     tasks.append(('small', ('rr', 0, 0)))
     tasks.append(('small', ('ka', 0, 0)))
+    # these messages are built by the reactor thread while REST worker threads build UPDATEs: every schedule of two threads with one
+    # preemption, warm and from a cold start (vf/threads.py, vf/concurrent.py)
+    from .. import concurrent
+    tasks += [('threads', a) for a in concurrent.tasks(PROP, tier)]
     res = explore.pmap(_dispatch, tasks, chunk=1)
     explore.close_pool()
     total = 0
@@ -487,9 +494,11 @@ def run(tier, seed):
         classes |= cl
         for k, det in v:
             det = det if isinstance(det, dict) else {}
-            col.add(k, det, {x: y for x, y in det.items() if x != 'case'}, task=t if t[0] == 'small' else None)
+            col.add(k, det, {x: y for x, y in det.items() if x != 'case'}, task=t if t[0] in ('small', 'threads') else None)
     n_new, n_known, summary = col.finish('c14-case')
+    classes, interleavings = concurrent.coverage(classes)
     cov = {
+        'thread_interleavings': interleavings,
         'evaluations': total, 'distinct_nontrivial': len(classes),
         'rule': 'round-trip half: every subset of the capability keys the encoder supports (afi_safi with None/0/1/2/3 families, '
                 'route_refresh, cisco_route_refresh, four_bytes_as, ext_nexthop, enhanced_route_refresh, add_path x 4) x AS values, the '
@@ -512,6 +521,9 @@ def replay(path):
     import json
     d = json.load(open(path))
     w = d['witness'] or {}
+    if '|threads|' in d['key']:
+        from .. import concurrent
+        return concurrent.cli_replay(PROP, d)
     print(json.dumps(d.get('detail'), indent=1, default=str)[:2000])
     if 'case' in w:
         t = report.unpack(w['case'])
